@@ -116,7 +116,7 @@ CHECKS["C04"] = {
             "(every datum appended to the caller's transcript lineage before the first challenge that must depend on it); differential cases: one "
             "(instance, single-datum perturbation) pair whose challenge sequences were compared position by position; non-trivial = all challenges were drawn in both runs; "
             "distinct = distinct (group, instance, perturbation name)",
-    "require": {"quick": {"prover_traces": 150, "verifier_traces": 150, "batch_traces": 80, "perturbation_pairs": 6000, "challenge_pairs_compared": 50000, "data_items_checked": 10000},
+    "require": {"quick": {"prover_traces": 150, "verifier_traces": 150, "batch_traces": 80, "batch_traces_beyond_one_chunk": 4, "perturbation_pairs": 6000, "challenge_pairs_compared": 50000, "data_items_checked": 10000},
                 "thorough": {"prover_traces": 2500, "verifier_traces": 2500, "batch_traces": 700, "perturbation_pairs": 100000, "challenge_pairs_compared": 1000000, "data_items_checked": 200000}},
     "assumptions": COMMON_ASSUMPTIONS + [
         "integers (bit length, degree, aggregation, promise) are recognised in the trace by their little-endian value in an append of at most 8 bytes, points by their 32-byte encoding; labels are not part of this check (C19 pins the layout)",
@@ -124,7 +124,7 @@ CHECKS["C04"] = {
     ],
     "level_text": "Observes every byte string appended to and every challenge drawn from merlin transcripts during real prove and verify calls. Online "
                   "trace specification: H, each G_k, n, degree, m, every commitment, every promise and A before y; L_j, R_j before e_j; A1, B before the "
-                  "final e; all on the transcript the caller supplied for that proof (batch members on their own). Differential oracle: after changing exactly "
+                  "final e; all on the transcript the caller supplied for that proof (batch members on their own, also in batches of 257..386 members, beyond the library's internal chunk). Differential oracle: after changing exactly "
                   "one datum (context, H, G_k, bit length, commitment, promise, A, L_j, R_j, A1, B) every challenge drawn after its absorption differs and every "
                   "earlier one is equal; None <-> Some(0) leaves all equal; re-verification under a changed context is rejected.",
     "level_note": "Held on the executed calls. Trusted: the probe (a verbatim copy of merlin 3.0.0 whose STROBE operations are untouched).",
@@ -405,11 +405,12 @@ CHECKS["C18"] = {
             "followed by a fixed probe set whose digest (proof bytes, verdicts, masks, generator encodings) is compared with the digest from a virgin process, on the same thread and on a fresh thread; threads cases: one round of T in {2,4,8,16} threads "
             "each running all jobs (prove, three verify modes, clone/drop parameters, tampered verify) over clones of one parameter object in its own random order with jitter; race cases: one fresh process with T in {2,3,6,8,12,16} threads making the first-ever "
             "generator calls; non-trivial = results were compared (and for threads: overlapping call pairs were observed)",
-    "require": {"quick": {"histories": 80, "probe_comparisons": 160, "virgin_process_probes": 8, "concurrent_rounds": 10, "concurrent_results_compared": 1000, "overlapping_call_pairs": 1000, "fresh_processes": 70, "racing_first_calls": 400, "sanitizer_processes": 8, "repeated_batches": 8, "repetitions_compared": 70},
+    "require": {"quick": {"histories": 80, "probe_comparisons": 160, "virgin_process_probes": 8, "parameter_churn_histories": 20, "parameter_churn_operations": 150, "concurrent_rounds": 10, "concurrent_results_compared": 1000, "overlapping_call_pairs": 1000, "fresh_processes": 70, "racing_first_calls": 400, "sanitizer_processes": 8, "repeated_batches": 8, "repetitions_compared": 70},
                 "thorough": {"histories": 700, "probe_comparisons": 1400, "virgin_process_probes": 16, "concurrent_rounds": 70, "concurrent_results_compared": 15000, "overlapping_call_pairs": 10000, "fresh_processes": 2400, "racing_first_calls": 15000, "sanitizer_processes": 8}},
     "deadline_s": {"quick": 1500, "thorough": 10000},
     "assumptions": COMMON_ASSUMPTIONS + ["explores the schedules the OS scheduler, harness jitter and ThreadSanitizer produce, not all interleavings", "TSan only understands synchronisation it intercepts; std is rebuilt instrumented (-Zbuild-std) so no uninstrumented library is involved"],
-    "level_text": "Runs fixed probe calls after random call histories (including calls that fail half-way through a batch) and compares every result bit with a virgin process; runs T threads over clones of one parameter object "
+    "level_text": "Runs fixed probe calls after random call histories (including calls that fail half-way through a batch, and histories that construct, keep alive, drop and re-construct large parameter sets "
+                  "before a probe that builds each of them afresh and proves over it) and compares every result bit with a virgin process; runs T threads over clones of one parameter object "
                   "(one shared Arc'd precomputation) against a sequential baseline and reports how many call pairs actually overlapped; races the first use of the once-initialised generator statics in fresh processes; repeats the concurrent legs under ThreadSanitizer, "
                   "where any report is a violation.",
     "level_note": "Held on the observed schedules only. Trusted: ThreadSanitizer, harness baseline.",
